@@ -5,6 +5,7 @@ from ..front import dotted, const_value, unparse, walk_no_nested, parent_map
 from ..core import holds, violation, unrecognised, Result, HOLDS
 
 ID = "C11"
+ANCHORS = 'tools.fimo.logaddexp2,tools.fimo._pwm_to_mapping'.split(",")
 MIN_INSTANCES = 6
 EXPLANATION = (
     "R-FASTMATH (contradiction rule): a function compiled with fastmath=True (or a flag set containing ninf/nnan) asserts "
